@@ -209,6 +209,7 @@ class Interp:
         self.loop_specs = self.cfg.get("loops", {})          # (qualname, ordinal) -> LoopSpec
         self.models = dict(DEFAULT_MODELS)
         self.models.update(self.cfg.get("models", {}))
+        self.spec_depth = 0
         self.steps = 0
         self.max_steps = self.cfg.get("max_steps", 2_000_000)
         self.frozen_ids = self.cfg.get("frozen_ids")       # id(obj) -> label: frame (C02/C19) write barrier
@@ -311,6 +312,15 @@ class Interp:
         return obj
 
     def call_function(self, func, args, kwargs):
+        if getattr(func, "__pyvc_spec__", False):
+            self.spec_depth += 1
+            try:
+                return self._call_function(func, args, kwargs)
+            finally:
+                self.spec_depth -= 1
+        return self._call_function(func, args, kwargs)
+
+    def _call_function(self, func, args, kwargs):
         node = SOURCES.node_of(func)
         code = func.__code__
         scopes = []
@@ -957,6 +967,8 @@ class Interp:
         raise Unsupported("symbolic ** without model")
 
     def check_div_zero(self, y, is_decimal):
+        if self.spec_depth:
+            return     # specification text: total real division
         c = z3.simplify(y == 0)
         if z3.is_false(c):
             return
@@ -1009,6 +1021,9 @@ class Interp:
                 if isinstance(op, ast.NotEq):
                     return True
                 raise ProgExc(TypeError(f"comparison between {type(a).__name__} and {type(b).__name__}"))
+            inf_r = _inf_compare(op, a, b)
+            if inf_r is not None:
+                return inf_r
             A, B = lift(a), lift(b)
             if A.ty == BOOL and B.ty == BOOL and isinstance(op, (ast.Eq, ast.NotEq)):
                 t = A.t == B.t
@@ -1301,6 +1316,31 @@ def _is_record_class(cls):
     if issubclass(cls, enum.Enum):
         return True
     return False
+
+
+def _infinite_sign(v):
+    if isinstance(v, SV):
+        return 0
+    try:
+        if isinstance(v, Decimal):
+            return (1 if v > 0 else -1) if v.is_infinite() else 0
+        f = float(v)
+        if f == float("inf"):
+            return 1
+        if f == float("-inf"):
+            return -1
+    except Exception:
+        pass
+    return 0
+
+
+def _inf_compare(op, a, b):
+    """finite symbolic number compared with a concrete +-infinity (symbols are always finite reals)."""
+    sa, sb = _infinite_sign(a), _infinite_sign(b)
+    if sa == 0 and sb == 0:
+        return None
+    x, y = (0 if sa == 0 else sa * 2), (0 if sb == 0 else sb * 2)   # finite side ~ 0, infinite ~ +-2
+    return _CMPOPS[type(op)](x, y)
 
 
 def _int_const(t):
@@ -1780,9 +1820,20 @@ def m_exact(interp, args, kwargs):
     return Fraction(v)
 
 
+def m_at(interp, args, kwargs):
+    seq, k = args
+    if hasattr(seq, "peek"):
+        return seq.peek(interp, k)
+    if isinstance(k, SV):
+        return interp.getitem(seq, k)
+    from . import api
+    return api.at(seq, k)
+
+
 def _install_api_models():
     from . import api
     DEFAULT_MODELS[api.exact] = m_exact
+    DEFAULT_MODELS[api.at] = m_at
 
 
 DEFAULT_MODELS = {
